@@ -38,6 +38,9 @@ pub struct ChainSpec {
     /// 0 = every schedule; k = k seeded random schedules per evaluation
     pub paths: usize,
     pub seed: u64,
+    /// stop continuing the chains of one universe once it has written this many trace lines (a
+    /// changed engine can make a universe explode; a shard must stay small enough for one TLC run)
+    pub max_universe_lines: usize,
 }
 
 pub struct ChainRun<'a> {
@@ -50,6 +53,7 @@ pub struct ChainRun<'a> {
     pub exact_ends: HashMap<String, Vec<usize>>,
     pub record_exact: bool,
     pub lookup_exact: bool,
+    pub start_lines: usize,
 }
 
 fn subsets(items: &[String], maxk: usize) -> Vec<BTreeSet<String>> {
@@ -124,6 +128,10 @@ impl<'a> ChainRun<'a> {
             extra.get("sameas").map(|x| x.to_string()).unwrap_or_default(),
         );
         if !self.seen.insert(key) {
+            return None;
+        }
+        if self.wr.total_lines - self.start_lines > self.spec.max_universe_lines {
+            self.stats.truncated += 1;
             return None;
         }
         let mut extra = extra;
@@ -354,7 +362,9 @@ pub fn run_universe(
             exact_ends: std::mem::take(&mut exact_ends),
             record_exact: both && *cmp == Cmp::Exact,
             lookup_exact: both && *cmp == Cmp::IgnoreStamp,
+            start_lines: 0,
         };
+        cr.start_lines = cr.wr.total_lines;
         cr.level(&w, 0, None, uid);
         exact_ends = std::mem::take(&mut cr.exact_ends);
     }
